@@ -107,6 +107,8 @@ type Engine struct {
 	signedLog []*PrimCall
 	mapOrderNondet bool
 	mapOrderMode int
+	mapOrderPrev int
+	mapOrderDrawn bool
 	inputObjs map[int]bool
 	encOpts, decOpts map[string]*StructV
 	nodeByName map[string]*Node
